@@ -5,8 +5,10 @@
 #![allow(dead_code, unused_variables, unused_mut, clippy::all)]
 
 pub mod circuit;
+pub mod detection_webs;
 pub mod gate;
 pub mod generate;
+pub mod graph;
 pub mod linalg;
 pub mod openqasm;
 pub mod phase;
